@@ -1,7 +1,7 @@
 (* C10 -- debug tracing is transparent: it changes stderr only, never the result.
    GENERATED from Properties/src/C10.props by tools/mkprops.py; property theorems only. *)
 From SP Require Import Model.Template Model.Scanner.
-From SP Require Import Proofs.ImplSpec Proofs.TemplateP Proofs.TemplateLaws Proofs.Corollaries.
+From SP Require Import Proofs.ImplSpec Proofs.TemplateP Proofs.TemplateLaws Proofs.Corollaries Proofs.BangP.
 
 (* whatever the debug setting, format() returns the identical value or error (as
    outcomes, so "tracing itself never fails" is part of the equality): the debug
@@ -49,6 +49,17 @@ Proof. exact consts_trace_total. Qed.
 Check C10_previews_cut_at_character_boundaries :
   debug_value_by_chars = true /\ debug_literal_by_chars = true.
 Print Assumptions C10_previews_cut_at_character_boundaries.
+
+(* the inline marker {!...}: for EVERY block text w, the operations are those of
+   {w} and only the debug flag differs (proved on the regenerated grammar) *)
+Theorem C10_bang_route :
+  forall (w : str), match w with 33%N :: _ => False | _ => True end ->
+  parse_template (123 :: 33 :: w)%N = omap (fun od => (fst od, true)) (parse_template (123%N :: w)).
+Proof. exact bang_only_sets_debug. Qed.
+Check C10_bang_route :
+  forall (w : str), match w with 33%N :: _ => False | _ => True end ->
+  parse_template (123 :: 33 :: w)%N = omap (fun od => (fst od, true)) (parse_template (123%N :: w)).
+Print Assumptions C10_bang_route.
 
 (* the debug argument at parse time only ever changes the debug field *)
 Theorem C10_parse_time_route :
